@@ -171,6 +171,7 @@ struct Global {
   VC sc; // seq_cst fence clock
   uint32_t gen;
   Cell* cells;
+  uint64_t unmanaged_atomics;
   Loc* locs;
   size_t nlocs_used, ncells_used;
   MutexRec mutexes[MUTEXES];
@@ -369,6 +370,7 @@ const char* violation_kind() { return G.viol.kind; }
 const char* violation_msg() { return G.viol.msg; }
 void clear_violation() {
   G.viol.storm = 0;
+  G.unmanaged_atomics = 0;
   G.viol.set = false;
   G.viol.kind[0] = 0;
   G.viol.msg[0] = 0;
@@ -1313,8 +1315,16 @@ static uint64_t atomic_op(AOp op, uintptr_t addr, int size, uint64_t operand, ui
                           int fmo, void* pc) {
   Thread* t = self;
   if (!managed(t)) {
-    if (t && !t->quiet)
+    if (t && !t->quiet) {
       heap_check((void*)addr, (size_t)size, pc, "atomic access");
+      // no scheduler budget applies to the unmanaged main thread (sequential prefix / drain of a scenario): an endless loop there
+      // (e.g. over a list that an earlier execution left inconsistent) is turned into a hang by this counter
+      if (++G.unmanaged_atomics > 100000000ull) {
+        char m[200];
+        snprintf(m, sizeof m, "the unmanaged main thread executed 100 million atomic operations since the last execution started (pc %p): endless loop", pc);
+        fatal_json("hang", m);
+      }
+    }
     return real_op(op, addr, size, operand, expected, ok);
   }
   G.rr.atomics++;
